@@ -64,6 +64,24 @@ def run(ck):
         ck.ob("C17-R1", "attribute:%s" % name, got == mem, w.loc, w,
               "written for Cookie::%s, read back into Cookie::%s" % (mem, got) if got else "written for Cookie::%s but no matcher reads %r" % (mem, name))
 
+    # Expires is written in the four-digit-year form (FullDate::write's default, RFC 1123): the two-digit-year forms are parsed
+    # into 1969..2068 only
+    fw = [e for e in w.calls(lambda e: (e.get("callee") or "") == H + "FullDate::write")]
+    ck.require(fw, "FullDate::write not found in Cookie::write")
+    for e in fw:
+        a = e.get("args") or []
+        fmt = a[1] if len(a) > 1 else {}
+        ok = fmt.get("dflt") and "RFC1123" in (fmt.get("dt") or "RFC1123") or "RFC1123" in (fmt.get("t") or "")
+        ck.ob("C17-R1", "Expires/four-digit-year-format", bool(ok), e.loc, w, "value.write(os%s)" % ("" if fmt.get("dflt") else ", " + (fmt.get("t") or "")))
+    # every attribute member is written by its matcher only: no later statement of fromRaw clears or overrides one attribute because of
+    # another
+    wr_ = [e for e in r.events(("assign", "call")) if (e["k"] == "assign" and (e["lhs"].get("f") or "").startswith(H + "Cookie::") and (e["lhs"].get("f") or "").rsplit("::", 1)[1] in MEMBERS)
+           or (e["k"] == "call" and ((e.get("recv") or {}).get("f") or "").startswith(H + "Cookie::") and ((e.get("recv") or {}).get("f") or "").rsplit("::", 1)[1] in MEMBERS
+               and lib.is_stl_mutation(e))]
+    ck.ob("C17-R1", "fromRaw/attributes-written-only-by-matchers", not wr_, wr_[0].loc if wr_ else r.loc, r,
+          "Cookie::fromRaw itself never assigns or resets an attribute member" if not wr_ else
+          "`%s` changes an attribute outside its matcher: a written cookie that carries this combination of attributes is not parsed back equal" % (wr_[0].get("t") or "")[:60])
+
     n = 0
     for f in prog.funcs.values():
         if not f.file.endswith("/common/cookie.cc"):
